@@ -253,4 +253,10 @@ example : (unsortedOrder [⟨"zeta", [20, 0], 0⟩, ⟨"inner", [20], 16⟩, ⟨
     = ["top", "last", "inner", "zeta", "alpha"] := by decide
 
 
+/-- **`--unsorted` lists by the key, whatever order the table hands the recipes in**: in the result no recipe's key
+`(import offsets, name offset)` is smaller than that of a recipe listed before it (the key order is transitive and
+asymmetric: `placedLt_trans`, `placedLt_asymm`) -/
+theorem unsorted_lists_in_key_order (rs : List Placed) : InKeyOrder (unsortedOrder rs) :=
+  unsortedOrder_inKeyOrder rs
+
 end Just.Props.C17
